@@ -107,9 +107,24 @@ def _dtype_obj(name):
     return name
 
 
+def _dec(e):
+    """JSON encoding of non-JSON numbers: {"np": "float64", "v": 1.5} / {"frac": [3, 2]}"""
+    if isinstance(e, dict):
+        if "np" in e:
+            return getattr(np, e["np"])(e["v"])
+        if "frac" in e:
+            from fractions import Fraction
+            return Fraction(e["frac"][0], e["frac"][1])
+    return e
+
+
 def _targets_obj(case):
     t = case["targets"]
     c = case.get("container", "list")
+    if isinstance(t, list):
+        t = [_dec(e) for e in t]
+    else:
+        t = _dec(t)
     if t is None or not isinstance(t, list):
         if c == "npint" and _is_int(t):
             return np.int64(t)
@@ -208,7 +223,8 @@ def must_reject(case):
     elif not isinstance(t, list):
         t = [t]
     if not all(_is_int(e) for e in t):
-        return None
+        # a float / numpy float / Fraction / str / None is not a subsystem position, whatever its value
+        return "non-integer target"
     t = [int(e) for e in t]
     if len(t) != len(orow):
         return "wrong target count"
@@ -253,8 +269,43 @@ TWO_Q = ["CNOT", "SWAP", "CSIGN"]          # CNOT is not symmetric: the order of
 THREE_Q = ["TOFFOLI", "FREDKIN"]
 
 
+def _target_matrix(name, arg):
+    if name == "X":
+        return np.array([[0, 1], [1, 0]], dtype=complex)
+    if name == "Z":
+        return np.array([[1, 0], [0, -1]], dtype=complex)
+    if name == "RX":
+        c, sn = np.cos(arg / 2), np.sin(arg / 2)
+        return np.array([[c, -1j * sn], [-1j * sn, c]], dtype=complex)
+    raise Broken("harness:entry", "unknown target gate " + str(name))
+
+
+def controlled_spec(e):
+    """block matrix on controls + targets in the listed order: block number control_value (controls read as a
+    big-endian binary number, first listed control most significant) is the target gate, every other block the identity"""
+    nc = len(e["controls"])
+    U = _target_matrix(e["target_gate"], e.get("arg"))
+    d = U.shape[0]
+    M = np.eye(d * 2 ** nc, dtype=complex)
+    v = int(e["control_value"])
+    M[v * d:(v + 1) * d, v * d:(v + 1) * d] = U
+    return M
+
+
+def _spec_qubits(e):
+    return [int(q) for q in (e.get("controls") or [])] + [int(q) for q in e["targets"]]
+
+
 def _make_gate(e):
     from qutip_qip import operations as ops
+    from qutip_qip.operations import gateclass
+    if e["gate"] == "CTRL":
+        kw = {}
+        if e.get("arg") is not None:
+            kw["arg_value"] = e["arg"]
+        return gateclass.ControlledGate(controls=list(e["controls"]), targets=list(e["targets"]),
+                                  control_value=int(e["control_value"]),
+                                  target_gate=getattr(ops, e["target_gate"]), **kw)
     cls = getattr(ops, e["gate"])
     kw = {}
     if e.get("controls") is not None:
@@ -299,8 +350,10 @@ def run_entry(case):
         warnings.simplefilter("ignore")
         if via.startswith("gate"):
             g = _make_gate(e)
-            mat = g.get_compact_qobj().full()
-            ts = [int(q) for q in g.get_all_qubits()]
+            # qubit order from the case (controls + targets as listed), NOT from the object under check;
+            # controlled gates: compact matrix from the block specification, NOT from the implementation
+            mat = controlled_spec(e) if e["gate"] == "CTRL" else g.get_compact_qobj().full()
+            ts = _spec_qubits(e)
             for call in entry_calls(case):
                 dims = _call_dims(call, ts)
                 try:
@@ -327,6 +380,19 @@ def run_entry(case):
                         res.append((call, "ok", p.get_ideal_qobj(call.get("int_dims", dims)), mat, [0], dims))
                     except Exception as ex:
                         res.append((call, "rejected", type(ex).__name__, mat, [0], dims))
+                return res
+            if via == "pulse-nonint":
+                # a pulse whose targets contain a non-integer number: every call must be rejected
+                odims = list(e["odims"])
+                mat = coded_matrix(odims, odims)
+                raw = [_dec(t) for t in e["targets"]] if isinstance(e["targets"], list) else _dec(e["targets"])
+                p = Pulse(qutip.Qobj(mat, dims=[odims, odims]), raw)
+                for call in entry_calls(case):
+                    dims = list(call["dims"])
+                    try:
+                        res.append((call, "ok", p.get_ideal_qobj(dims), mat, [], dims))
+                    except Exception as ex:
+                        res.append((call, "rejected", type(ex).__name__, mat, [], dims))
                 return res
             ts = [int(t) for t in e["targets"]]
             odims = list(e["odims"]) if "odims" in e else [case["dims"][t] for t in ts]
@@ -357,6 +423,13 @@ def check_entry(case, model_maps=None, corr=None):
     via = case["entry"]["via"]
     for idx, (call, status, out, mat, ts, dims) in enumerate(run_entry(case)):
         f = None
+        if via == "pulse-nonint":
+            if status == "ok":
+                f = (f"call {idx} {call}: accepted, result dims {out.dims}", "rejected",
+                     "malformed call accepted: non-integer target (through Pulse.get_ideal_qobj)")
+                if first is None:
+                    first = (f[0], f[1], f[2], idx, call)
+            continue
         if status != "ok":
             f = ("rejected: " + str(out), "accepted", "entry point rejects a valid embedding request: " + via)
         elif out.dims != [dims, dims]:
@@ -454,6 +527,37 @@ def entry_cases(ctx):
                             add(dims, via="gate", gate=name, controls=[qs[0], qs[1]], targets=[qs[2]])
                         else:
                             add(dims, via="gate", gate=name, controls=[qs[0]], targets=[qs[1], qs[2]])
+    # ---- multi-controlled gates: every ordered placement of controls + target, EVERY control value
+    #      (the control value is not symmetric under exchanging controls), target gates X / Z / RX
+    for N in (2, 3, 4):
+        for nc in (1, 2, 3):
+            if nc + 1 > N:
+                continue
+            for qs in itertools.permutations(range(N), nc + 1):
+                for cv in range(2 ** nc):
+                    if N <= 3 or ctx.thorough:
+                        dlist = _dims_with(N, qs)
+                    elif nc == 3 or rng.random() < 0.35:
+                        dlist = _dims_with(N, qs, rng)
+                    else:
+                        continue
+                    tg = rng.choice(["X", "Z", "RX"])
+                    for dims in dlist:
+                        add(dims, via="gate", gate="CTRL", target_gate=tg, arg=(0.5 if tg == "RX" else None),
+                            controls=list(qs[:nc]), targets=[qs[nc]], control_value=cv)
+    add([2, 2, 2], via="gate", gate="CTRL", target_gate="X", controls=[2, 0], targets=[1], control_value=2)
+    add([2, 2, 2], via="gate-num-qubits", gate="CTRL", target_gate="X", controls=[2, 0], targets=[1], control_value=1)
+    # ---- non-integer targets through Pulse.get_ideal_qobj: must be rejected
+    for tg in ([1.5], [2.7], -0.5, 1.5, [0.5, 1.5], [dict(np="float64", v=1.5)], [dict(frac=[3, 2])], [1.0], 1.0):
+        k = len(tg) if isinstance(tg, list) else 1
+        add([2, 2, 2], via="pulse-nonint", targets=tg, odims=[2] * k)
+    for _ in range(ctx.n(20, 100)):
+        N = rng.randint(1, 4)
+        dims = [rng.choice([2, 3, 4]) for _ in range(N)]
+        t = rng.randrange(N)
+        v = rng.choice([t + 0.5, t + 0.7, float(t), t - 0.3 if t else -0.5])
+        enc = rng.choice([v, dict(np="float64", v=v), dict(frac=[int(round(v * 20)), 20])])
+        add(dims, via="pulse-nonint", targets=rng.choice([enc, [enc]]), odims=[dims[t]])
     add([2, 2, 2], via="gate-num-qubits", gate="CNOT", controls=[2], targets=[0])
     add([2, 2], via="gate-default", gate="CNOT", controls=[1], targets=[0])
     add([2, 2, 2], via="gate-num-qubits", gate="RX", targets=[1], arg=0.25)
@@ -481,7 +585,10 @@ def entry_cases(ctx):
         qs = rng.sample(range(top), k)
         name = rng.choice({1: ONE_Q, 2: TWO_Q, 3: THREE_Q}[k])
         e = dict(via="gate-history", gate=name)
-        if k == 1:
+        if k >= 2 and rng.random() < 0.4:
+            e.update(gate="CTRL", target_gate=rng.choice(["X", "Z"]), controls=qs[:k - 1], targets=[qs[k - 1]],
+                     control_value=rng.randrange(2 ** (k - 1)))
+        elif k == 1:
             e.update(targets=[qs[0]], arg=(0.5 if name == "RX" else None))
         elif name == "SWAP":
             e.update(targets=qs)
@@ -523,6 +630,8 @@ def entry_model_cases(case):
     """the expand_operator calls (as model cases) underlying the calls of an entry case"""
     e = case["entry"]
     out = []
+    if e["via"] == "pulse-nonint":
+        return out
     if e["via"] == "pulse-none":
         for call in entry_calls(case):
             dims = _call_dims(call, [0])
@@ -627,6 +736,14 @@ def malformed_cases(ctx):
         dict(dims=[], orow=[2], ocol=[2], targets=[-1]),
         dict(dims=[2, 2], orow=[2], ocol=[2], targets=[]),
         dict(dims=[2, 2], orow=[2], ocol=[2], targets=[1.0]),
+        dict(dims=[2, 2, 2], orow=[2], ocol=[2], targets=[1.5]),
+        dict(dims=[2, 2, 2], orow=[2], ocol=[2], targets=2.7),
+        dict(dims=[2, 2, 2], orow=[2], ocol=[2], targets=-0.5),
+        dict(dims=[2, 3, 2], orow=[2, 3], ocol=[2, 3], targets=[2.7, 1.5]),
+        dict(dims=[2, 2], orow=[2], ocol=[2], targets=[dict(np="float64", v=1.5)]),
+        dict(dims=[2, 2], orow=[2], ocol=[2], targets=dict(np="float64", v=1.0)),
+        dict(dims=[2, 2], orow=[2], ocol=[2], targets=[dict(frac=[3, 2])]),
+        dict(dims=[2, 2], orow=[2], ocol=[2], targets=[dict(frac=[1, 1])]),
         dict(dims=[2, 2], orow=[2], ocol=[2], targets=1.0),
         dict(dims=[2, 2], orow=[2], ocol=[2], targets="1"),
         dict(dims=[2, 2], orow=[2], ocol=[2], targets=[None]),
@@ -642,7 +759,7 @@ def malformed_cases(ctx):
         N, dims, k, ts, c = base()
         c["kind"] = "malformed"
         m = rng.choice(["count-", "count+", "range", "range-big", "neg-wrap", "neg", "neg-low", "dup", "dims",
-                        "dims-order", "nonsquare", "nonint", "nonint-scalar", "ok", "k>N", "none-bad"])
+                        "dims-order", "nonsquare", "nonint", "nonint", "nonint-scalar", "nonint-scalar", "ok", "k>N", "none-bad"])
         c["mutation"] = m
         j = rng.randrange(k)
         if m == "count-":
@@ -678,10 +795,19 @@ def malformed_cases(ctx):
         elif m == "nonsquare":
             c["ocol"][j] = rng.choice([d for d in (1, 2, 3, 4) if d != c["ocol"][j]])
         elif m == "nonint":
-            c["targets"][j] = rng.choice([float(ts[j]), str(ts[j]), None, 0.5])
-            c["container"] = "list"
+            # values that truncate (int()) or round to the valid position ts[j], and others
+            v = rng.choice([ts[j] + 0.5, ts[j] + 0.7, ts[j] + 0.25, float(ts[j]), (ts[j] - 0.5) if ts[j] == 0 else ts[j] - 0.3,
+                            0.5, 1.5, 2.7, -0.5])
+            c["targets"][j] = rng.choice([v, v, dict(np="float64", v=v), dict(np="float32", v=float(np.float32(v))),
+                                          dict(frac=[int(round(v * 20)), 20]), dict(frac=[ts[j], 1]),
+                                          str(ts[j]), None])
+            c["container"] = rng.choice(["list", "tuple"])
         elif m == "nonint-scalar":
-            c["targets"] = rng.choice([float(ts[0]), 0.5, str(ts[0])])
+            t0 = ts[0]
+            c["orow"] = [dims[t0]]
+            c["ocol"] = [dims[t0]]
+            v = rng.choice([t0 + 0.5, t0 + 0.7, float(t0), -0.5 if t0 == 0 else t0 - 0.3, 0.5, 1.5, 2.7])
+            c["targets"] = rng.choice([v, v, dict(np="float64", v=v), dict(frac=[int(round(v * 20)), 20]), str(t0)])
             c["container"] = "scalar"
         elif m == "k>N":
             kk = N + rng.randint(1, 2)
@@ -792,7 +918,12 @@ def eval_model(ctx, jobs):
                     body.append(f"Eval vm_compute in (expand_pairs_z {a} {pl}).")
             texts.append((f"C08_{ctx.tier}_{kind}{i}", "\n".join(body) + "\n"))
             files.append((kind, ch))
-    outs = coq_eval_many(texts, timeout=900)
+    try:
+        outs = coq_eval_many(texts, timeout=900)
+    except Broken:
+        # coqc killed / timed out on an overloaded machine: one retry (same files, same result if healthy)
+        ctx.notes.append("coq evaluation of the cases failed once and was retried")
+        outs = coq_eval_many(texts, timeout=1500)
     res = {}
     for (name, _), (kind, ch) in zip(texts, files):
         if kind == "t":
